@@ -525,7 +525,8 @@ class NodeTable:
                         c, pol = c[2], not pol
                     if isinstance(c, tuple) and c[0] == "compare" and \
                             c[2] == ("const", "mapper_method") and \
-                            c[3] == (("attr", cls_p, "__dict__"),):
+                            c[3] in ((("attr", cls_p, "__dict__"),),
+                                     (("call", "vars", (cls_p,), ()),)):
                         if (c[1] == ("In",) and not pol) or \
                                 (c[1] == ("NotIn",) and pol):
                             notin = True
